@@ -217,7 +217,7 @@ PROPS['C02'] = {
 _C03_SCEN = [  # (scenario, threads, quick cases, thorough cases)
     ('future_mt', 5, 12000, 600000), ('future_async_mt', 5, 12000, 600000), ('mutex_mt', 4, 10000, 500000), ('mutex_pool_handoff', 1, 20000, 400000),
     ('queue_mt', 5, 8000, 400000), ('lqueue_mt', 5, 8000, 400000), ('shared_future_mt', 4, 10000, 500000),
-    ('scheduler_threads', 1, 6000, 200000), ('scheduler_stop_race', 1, 6000, 200000), ('pool_mt', 4, 12000, 400000), ('publisher_mt', 4, 8000, 400000), ('signal_mt', 4, 8000, 400000),
+    ('scheduler_threads', 1, 6000, 200000), ('scheduler_stop_race', 1, 6000, 200000), ('pool_mt', 4, 12000, 400000), ('publisher_mt', 4, 8000, 400000), ('signal_mt', 4, 8000, 400000), ('generator_programs', 2, 6000, 300000), ('aggregator_programs', 2, 4000, 200000),
 ]
 PROPS['C03'] = {
     'technique': 'ThreadSanitizer (happens-before race detection) over the shared multi-threaded scenario library; guarded fence annotation',
@@ -394,5 +394,47 @@ PROPS['C15'] = {
         J('mt_rel', 'c15.cpp', 'rel', [150000, 8000000], scenario='signal_mt'),
         J('mt_crel', 'c15.cpp', 'crel', [0, 3000000], scenario='signal_mt', tiers=(T,)),
         J('hist_casan', 'c15.cpp', 'casan', [0, 800000], scenario='signal_history', threads=1, tiers=(T,)),
+    ],
+}
+
+PROPS['C13'] = {
+    'technique': 'scripted generator bodies vs recorded consumer observations (reference sequence); instance-counted locals; two-thread completion with stalls; ASan',
+    'level_text': ('Body scripts over {yield v, await a ready future, await a pending future, throw, return} for generator<int> and generator<int,int> '
+                   '(argument read through co_yield nullptr and every co_yield). The consumer picks the access style independently per step from '
+                   '{next()+value(), iterator, call->future->wait(), call->future->co_await, co_await next()}; pending awaits of the body are '
+                   'completed by the consumer thread (awaiting styles) or by a helper team thread (blocking styles), sometimes before they are '
+                   'awaited. Oracle: observed sequence (values, exception position, single end marker) == the script\'s; the body saw exactly the '
+                   'arguments of the calls that resumed it, one per call; a generator dropped before its first activation never runs; the RAII '
+                   'guard in the body is destroyed exactly once also when the generator is dropped parked at a yield.'),
+    'level_note': 'After the first end/exception indication the harness stops calling (behaviour afterwards is not part of the statement).',
+    'rule': ('case = one program (script of 0-8 ops, per-step styles, drop mode, one or two threads); non-trivial = >=2 observed items; distinct = '
+             'distinct (generator kind, script, threading, drop mode, style sequence).'),
+    'min_nontrivial': [300, 3000],
+    'require_classes': ['generator_programs:programs_with_cross_thread_completion', 'generator_programs:programs_dropping_the_generator_early',
+                        'generator_programs:style: iterator', 'generator_programs:style: call->future->wait'],
+    'jobs': [
+        J('prog_asan', 'c13.cpp', 'asan', [30000, 1500000], scenario='generator_programs', threads=2),
+        J('prog_rel', 'c13.cpp', 'rel', [60000, 4000000], scenario='generator_programs', threads=2),
+        J('prog_casan', 'c13.cpp', 'casan', [0, 800000], scenario='generator_programs', threads=2, tiers=(T,)),
+        J('prog_crel', 'c13.cpp', 'crel', [0, 2000000], scenario='generator_programs', threads=2, tiers=(T,)),
+    ],
+}
+PROPS['C14'] = {
+    'technique': 'scripted source generators with unique ids vs recorded aggregate output (multiset union, per-source order, end/exception, argument routing); ASan/LSan',
+    'level_text': ('0-5 scripted sources (finite or 40-yield "infinite", synchronous or awaiting pending futures completed by the consumer or a helper '
+                   'thread, possibly throwing), aggregated; the consumer uses every access style per step. Oracle: every consumed id belongs to a '
+                   'source and is the next one of that source (per-source order, no duplicate), the aggregate ends only when every source ended and '
+                   'then nothing is missing, a source exception is reported while no other value is lost, argument routing (first call -> all '
+                   'sources, call n+1 -> the source whose value call n returned), destruction while parked (from ordinary code, with in-flight '
+                   'asynchronous sources) returns and all source locals are destroyed exactly once.'),
+    'level_note': 'Before destroying a parked aggregate the harness resolves what in-flight sources await (they could never deliver otherwise) and destroys from ordinary code, as documented.',
+    'rule': ('case = one program; non-trivial = >=2 sources and >=3 observed items; distinct = distinct (sources\' scripts, threading, style sequence, '
+             'observed interleaving).'),
+    'min_nontrivial': [300, 3000],
+    'require_classes': ['aggregator_programs:programs_with_cross_thread_completion', 'aggregator_programs:programs_destroying_the_aggregate_while_parked'],
+    'jobs': [
+        J('prog_asan', 'c14.cpp', 'asan', [20000, 1000000], scenario='aggregator_programs', threads=2),
+        J('prog_rel', 'c14.cpp', 'rel', [40000, 3000000], scenario='aggregator_programs', threads=2),
+        J('prog_casan', 'c14.cpp', 'casan', [0, 500000], scenario='aggregator_programs', threads=2, tiers=(T,)),
     ],
 }
